@@ -211,9 +211,9 @@ def audit_axioms(prop_modules):
     rc, out = run(["lake", "env", "lean", f], cwd=LEAN)
     res = {}
     # output: "'name' depends on axioms: [a, b]"  or "'name' does not depend on any axioms"
-    for m in re.finditer(r"'([^']+)' depends on axioms: \[([^\]]*)\]", out, flags=re.S):
+    for m in re.finditer(r"'(\S+)' depends on axioms: \[([^\]]*)\]", out, flags=re.S):
         res[m.group(1)] = sorted(a.strip() for a in m.group(2).replace("\n", " ").split(",") if a.strip())
-    for m in re.finditer(r"'([^']+)' does not depend on any axioms", out):
+    for m in re.finditer(r"'(\S+)' does not depend on any axioms", out):
         res[m.group(1)] = []
     missing = [t for t in thms if t not in res]
     return thms, res, missing, out
